@@ -37,8 +37,11 @@ CELLS = {
     # lengths 3, 4, 5 angles 80, 100, 70 in the standard orientation, rounded to 4 decimals
     "triclinic": [[3, 0, 0], [F(13681, 10000), F(37588, 10000), 0], [F(-8682, 10000), F(12400, 10000), F(47650, 10000)]],
     "hex": [[3, 0, 0], [F(-15, 10), F(25981, 10000), 0], [0, 0, 4]],
+    # a strongly skewed cell (lengths 2.42, 3.05, 2.13, angles 121.1, 124.5, 88.6): c leans by almost half of a and a third of b
+    "skewed": [[F(24226, 10000), 0, 0], [F(764, 10000), F(30449, 10000), 0], [F(-12072, 10000), F(-10723, 10000), F(13941, 10000)]],
 }
 GRID = (F(-3, 10), F(15, 100), F(85, 100), F(12, 10))          # fractional y / z positions: outside below, just inside, just inside the upper face, outside above
+GRID_FINE = (F(-3, 10), F(5, 100), F(22, 100), F(41, 100), F(59, 100), F(78, 100), F(95, 100), F(12, 10))
 
 
 def program():
@@ -77,8 +80,9 @@ def _spec(cell, cut, dx, dy, dz, margin):
     return (z3.Or(*ins) if ins else z3.BoolVal(False)), (z3.And(*outs) if outs else z3.BoolVal(True))
 
 
-def voxel_pair(cell: str = "cubic3", cut_frac: float = 0.8, g0: int = 0, periodic: bool = True):
-    """g0: index of atom 0's (y, z) grid point (0..15); atom 1 runs over the whole grid"""
+def voxel_pair(cell: str = "cubic3", cut_frac: float = 0.8, g0: int = 0, periodic: bool = True, points: str = "", grid: str = "coarse"):
+    """g0: index of atom 0's (y, z) grid point (0..15); atom 1 runs over the whole grid.  points: 'y0,z0,y1,z1' (Cartesian, nm) replaces the grid by
+    one explicit pair of (y, z) positions"""
     t0 = time.time()
     P = program()
     cm = [[F(v) for v in r] for r in CELLS[cell]]
@@ -87,15 +91,17 @@ def voxel_pair(cell: str = "cubic3", cut_frac: float = 0.8, g0: int = 0, periodi
     Lx = cm[0][0]
     x0, x1 = z3.Real("x0"), z3.Real("x1")
     base = [x0 >= X.tz(-F(5, 2) * Lx), x0 <= X.tz(F(7, 2) * Lx), x1 >= X.tz(-F(5, 2) * Lx), x1 <= X.tz(F(7, 2) * Lx)]
-    fy0, fz0 = GRID[g0 // 4], GRID[g0 % 4]
+    GR = GRID if grid == "coarse" else GRID_FINE
+    fy0, fz0 = GR[g0 // len(GR)], GR[g0 % len(GR)]
     tot = {"queries": 0, "solver_s": 0.0, "paths": 0, "pairs": 0}
     seen = {True: 0, False: 0}
     box = [v for r in cm for v in r]
-    for fy1, fz1 in itertools.product(GRID, GRID):
+    explicit = [F(v).limit_denominator(100000) for v in points.split(",")] if points else None
+    for fy1, fz1 in (itertools.product(GR, GR) if not explicit else [(None, None)]):
         # Cartesian y, z of the grid points (fractional along b and c; the x contribution of b and c is absorbed by the symbolic x)
         def yz(fy, fz):
             return fy * cm[1][1] + fz * cm[2][1], fz * cm[2][2]
-        (y0, z0), (y1, z1) = yz(fy0, fz0), yz(fy1, fz1)
+        (y0, z0), (y1, z1) = (yz(fy0, fz0), yz(fy1, fz1)) if not explicit else ((explicit[0], explicit[1]), (explicit[2], explicit[3]))
         xyz = [X.SReal(x0), y0, z0, X.SReal(x1), y1, z1]
 
         def run():
@@ -146,7 +152,7 @@ def voxel_pair(cell: str = "cubic3", cut_frac: float = 0.8, g0: int = 0, periodi
         except (X.Unsupported, X.LowerError) as e:
             return {**tot, "status": "inconclusive", "detail": f"{type(e).__name__}: {e}"}
     tot["solver_s"] = round(tot["solver_s"], 2)
-    if not (seen[True] and seen[False]):
+    if not (seen[True] and seen[False]) and not explicit:
         return {**tot, "status": "inconclusive", "detail": f"reachability twin failed: paths with the pair listed {seen[True]}, not listed {seen[False]}"}
     return {**tot, "status": "holds", "twin_ok": True, "wall_s": round(time.time() - t0, 2)}
 
